@@ -12,11 +12,14 @@
 From SioV Require Import Base.GoSem Base.Conc Eio.Handshake Eio.HandshakeIdProofs Eio.HandshakeProofs
   Eio.HandshakeRace Eio.HandshakeRaceProofs.
 
-(** An invalid request is answered with the error code of (one of) its defects - HTTP 400 and the
+(** (HTTP/1.x and HTTP/2; for HTTP/3 the full statement is refuted by the code as it is, see
+    C17_invalid_is_error_and_pure_refuted below: known finding http3-skips-version-and-method-checks.)
+    An invalid request is answered with the error code of (one of) its defects - HTTP 400 and the
     protocol's JSON error - and neither creates nor alters a session.  [gen_ok]: the id generator
     does not give up (it does only when 11 consecutive proposals are ids of live sessions; the
     handshake is then answered 500 before the transport name is looked at). *)
-Theorem C17_invalid_is_error_and_pure : forall rnd st rq,
+Theorem C17_invalid_is_error_and_pure_partial : forall rnd st rq,
+  is_p3 (r_proto rq) = false ->
   s_closed st = false -> r_auth rq = true -> gen_ok rnd st ->
   defects st rq <> [] ->
   exists d, In d (defects st rq)
@@ -27,26 +30,52 @@ Proof. exact invalid_is_error_and_pure. Qed.
 
 (** ... so a request with exactly one defect gets exactly that defect's code. *)
 Theorem C17_single_defect_exact_code : forall rnd st rq d,
+  is_p3 (r_proto rq) = false ->
   s_closed st = false -> r_auth rq = true -> gen_ok rnd st ->
   defects st rq = [d] -> fst (serve rnd st rq) = RErr (code_of d).
 Proof. exact single_defect_code. Qed.
 
-(** Whatever the request (valid or not, any method, any parameters, any Authenticator answer, any
-    random bytes): the closed flag is untouched, and either the store is untouched, or the request
-    was a GET handshake accepted by the Authenticator and exactly one session was added under an id
-    that no live session had. *)
+(** The full statement (every HTTP version) does not hold for the code as it is: over HTTP/3 the
+    version check and the method checks are skipped for every request, not only for the WebTransport
+    session request.  Witnesses: [GET ?EIO=3&transport=polling] and [POST ?EIO=4&transport=polling]
+    over HTTP/3 on an empty running server: one defect each, yet a session is created. *)
+Theorem C17_invalid_is_error_and_pure_refuted :
+  let st := mkState false [] 0 in
+  let rnd := fun _ : N => repeat 7%N 12 in
+  defects st h3_bad_version = [BadVersion] /\ creates (fst (serve rnd st h3_bad_version)) <> None
+  /\ defects st h3_bad_method = [BadMethod] /\ creates (fst (serve rnd st h3_bad_method)) <> None.
+Proof. exact http3_refuted. Qed.
+
+(** The side condition of the partial theorem is satisfiable and is what HTTP/1.x and HTTP/2 requests satisfy. *)
+Example C17_partial_side_condition : is_p3 P1 = false /\ is_p3 P2 = false /\ is_p3 P3 = true.
+Proof. repeat split. Qed.
+
+(** Whatever the request (any HTTP version, valid or not, any method, any parameters, any
+    Authenticator answer, any random bytes): the closed flag is untouched, and either the store is
+    untouched, or the request was a handshake (no sid) accepted by the Authenticator and exactly one
+    session was added under an id that no live session had; over HTTP/1.x and HTTP/2 that request was
+    a GET with protocol version 4 and the answer carries the OPEN packet. *)
 Theorem C17_only_a_handshake_changes_the_store : forall rnd st rq r st',
   serve rnd st rq = (r, st') ->
   s_closed st' = s_closed st /\
-  ((is_open r = false /\ s_store st' = s_store st)
-   \/ exists sid k, r = ROpen sid k /\ r_sid rq = [] /\ r_auth rq = true /\ r_meth rq = GET
-                    /\ ~ In sid (sids (s_store st)) /\ s_store st' = s_store st ++ [(sid, k)]).
+  ((creates r = None /\ s_store st' = s_store st)
+   \/ exists sid k, creates r = Some (sid, k) /\ r_sid rq = [] /\ r_auth rq = true
+        /\ (is_p3 (r_proto rq) = false -> r = ROpen sid k /\ r_meth rq = GET /\ eio_is4 (r_eio rq) = true)
+        /\ ~ In sid (sids (s_store st)) /\ s_store st' = s_store st ++ [(sid, k)]).
 Proof. exact serve_effect. Qed.
+
+(** No session is created by a request with an unsupported version or a wrong method arriving over
+    HTTP/1.x or HTTP/2 (whatever else the request says, whatever the server state). *)
+Theorem C17_creation_needs_valid_request : forall rnd st rq r st' sid k,
+  is_p3 (r_proto rq) = false ->
+  serve rnd st rq = (r, st') -> creates r = Some (sid, k) ->
+  eio_is4 (r_eio rq) = true /\ r_meth rq = GET /\ r_sid rq = [] /\ r_auth rq = true.
+Proof. exact creation_needs_valid_request. Qed.
 
 (** Every accepted handshake yields a session id unique among the live sessions (by the store's
     own check, independently of the random source), and session ids stay pairwise distinct. *)
-Theorem C17_valid_handshake_fresh : forall rnd st rq sid k st',
-  serve rnd st rq = (ROpen sid k, st') ->
+Theorem C17_valid_handshake_fresh : forall rnd st rq r sid k st',
+  serve rnd st rq = (r, st') -> creates r = Some (sid, k) ->
   ~ In sid (sids (s_store st)) /\ s_store st' = s_store st ++ [(sid, k)] /\ (wf st -> wf st').
 Proof. exact valid_handshake_fresh. Qed.
 
@@ -128,8 +157,8 @@ Example C17_example :
   let sid := generate_id 7 (repeat 1%N 12) in
   let st := mkState false [(sid, Polling)] 8 in
   let rnd := fun _ : N => repeat 2%N 12 in
-  defects st (mkReq PUT [52]%N s_polling sid false true) = [BadMethod]
-  /\ fst (serve rnd st (mkReq PUT [52]%N s_polling sid false true)) = RErr 2
+  defects st (mkReq P2 PUT [52]%N s_polling sid false true) = [BadMethod]
+  /\ fst (serve rnd st (mkReq P2 PUT [52]%N s_polling sid false true)) = RErr 2
   /\ gen_ok rnd st
-  /\ is_open (fst (serve rnd st (mkReq GET [52]%N s_polling [] false true))) = true.
+  /\ is_open (fst (serve rnd st (mkReq P1 GET [52]%N s_polling [] false true))) = true.
 Proof. vm_compute. repeat split; discriminate. Qed.
